@@ -7,6 +7,7 @@ rm -rf $W; mkdir -p $W/base_repo $W/base_verif
 # snapshots of the committed states, so that concurrent edits do not disturb the sweep
 git -C /repo archive HEAD | tar -x -C $W/base_repo
 git -C /verif archive HEAD | tar -x -C $W/base_verif
+cp /verif/bin/gvc $W/gvc
 props=$(python3 -c "import json;print(' '.join(c['property_id'] for c in json.load(open('/verif/MANIFEST.json'))['checks']))")
 out=/verif/seeded/RESULTS.tsv
 : > $out.tmp
@@ -19,7 +20,7 @@ for d in /verif/seeded/*/; do
   if ! (cd $W/repo && patch -p1 -s --no-backup-if-mismatch < $d/patch.diff >/dev/null 2>&1); then echo -e "$id\tPATCH-DOES-NOT-APPLY" >> $out.tmp; continue; fi
   caught=""
   for p in $props; do
-    res=$(GVC_REPO=$W/repo GVC_VERIF=$W/verif /verif/bin/gvc check $p 2>&1)
+    res=$(GVC_REPO=$W/repo GVC_VERIF=$W/verif $W/gvc check $p 2>&1)
     rc=$?
     if [ $rc -eq 1 ]; then
       ob=$(echo "$res" | grep -m2 "^  obligation\|^  anchor\|^  .*:" | head -1 | cut -c1-160)
